@@ -38,7 +38,7 @@ FLOORS = {"quick": {"sink_acks_checked": 30000, "sink_sequences": 5000, "sender_
                        "faults_applied": 80000, "data_drops_applied": 30000, "ack_drops_applied": 30000, "delays_applied": 40000,
                        "timeouts_seen": 30000, "fast_retransmits_seen": 2000, "lossfree_runs": 60,
                        "exhaustive_spaces": 40, "cc_TCPCubic": 10000, "cc_TCPReno": 10000}}
-KEYS = tuple(FLOORS["quick"].keys()) + ("sink_long_hole_sequences", "random_pattern_runs", "dup_transmissions", "drained_after_completion")
+KEYS = tuple(FLOORS["quick"].keys()) + ("unusual_config_runs", "sink_long_hole_sequences", "random_pattern_runs", "dup_transmissions", "drained_after_completion")
 MSS = 512
 
 
@@ -165,7 +165,10 @@ def sender_case(case, stats, bad):
     env = net.env
     size = case["n"] * MSS
     flow = Flow(flow_id=1, src="s", dst="d", start_time=0, finish_time=float("inf"), size=size)
-    cc = TCPReno() if case["cc"] == "TCPReno" else TCPCubic()
+    if case["cc"] == "TCPReno":
+        cc = TCPReno(ssthresh=case["ssthresh0"]) if "ssthresh0" in case else TCPReno()
+    else:
+        cc = TCPCubic()
     sender = TCPPacketGenerator(env, flow=flow, cc=cc, rtt_estimate=case["rtt0"])
     sink = TCPSink(env, rec_waits=False, rec_arrivals=False)
     dtap = DropTap(net, "data", case["data_drops"], case.get("data_delays"))
@@ -308,6 +311,23 @@ def run_shard(ctx):
             if ctx.stop:
                 break
         stats["exhaustive_spaces"] += 1
+    # unusual but legal configurations: a Reno sender whose initial ssthresh is tiny or 0 (few drops), and
+    # long loss-free CUBIC flows over a path with a very small round-trip time (the window passes ssthresh)
+    rng = ctx.rng("cfg")
+    for j in range(12 if ctx.tier == "quick" else 150):
+        n = rng.choice([6, 12, 20])
+        case = {"kind": "sender", "n": n, "cc": "TCPReno", "delay": rng.choice([0.05, 0.1]), "rtt0": rng.choice([1.0, 0.2]),
+                "ssthresh0": rng.choice([0, 0, 100, 512]), "data_drops": sorted(rng.sample(range(n + 4), rng.randint(1, 2))),
+                "ack_drops": sorted(rng.sample(range(n + 4), rng.randint(0, 1)))}
+        applied = sender_case(case, stats, mk_bad(case))
+        stats["unusual_config_runs"] += 1
+        ctx.case_done(case, applied >= 1)
+    for j in range(2 if ctx.tier == "quick" else 12):
+        case = {"kind": "sender", "n": rng.choice([300, 400]), "cc": "TCPCubic", "delay": rng.choice([1e-5, 3e-5, 1e-4, 1e-3]),
+                "rtt0": rng.choice([1.0, 0.01]), "data_drops": [], "ack_drops": []}
+        sender_case(case, stats, mk_bad(case))
+        stats["unusual_config_runs"] += 1
+        ctx.case_done(case, True)
     # random patterns on longer flows
     rng = ctx.rng("rand")
     for i in ctx.cases(60 if ctx.tier == "quick" else 600):
